@@ -48,6 +48,12 @@ Definition nan_b (sc : list Z) (onan : list Z) : bool :=
   | x :: r => zlist_eqb onan (filter (fun c => negb (memZ c sc)) (zrange 0 (Z.to_nat (zmax_ne x r + 1))))
   end.
 
+(* nan_idx in EITHER branch of _load_data: the increasing ids of range(n_clusters) that no spike carries *)
+Definition NanIdx_Spec (ncl : Z) (sc : list Z) (nan : list Z) : Prop :=
+  StronglySorted Z.lt nan /\ forall c, In c nan <-> (0 <= c < ncl /\ ~ In c sc).
+Definition nan_n_b (ncl : Z) (sc : list Z) (onan : list Z) : bool :=
+  zlist_eqb onan (filter (fun c => negb (memZ c sc)) (zrange 0 (Z.to_nat ncl))).
+
 (* ---------- waveforms ---------- *)
 (* number of spikes with cluster c and template t *)
 Definition cnt (d : dset) (c t : Z) : Z :=
